@@ -147,7 +147,7 @@ def cluster_case(draw, max_n=40, max_d=4, entries=ENTRIES, corner=None, min_n=1)
     metric = draw(st.sampled_from(list(rc.METRICS)))
     shape = draw(rc.dataset_shape(max_n=max_n, max_d=max_d, min_n=min_n))
     n = shape["n"]
-    case = {"data": None, "metric": metric, "entry": entry, "seed": draw(st.integers(0, 2 ** 31 - 1))}
+    case = {"data": None, "metric": metric, "entry": entry, "seed": draw(st.one_of(st.sampled_from([0, 0, 1]), st.integers(0, 2 ** 31 - 1)))}
     if entry in KC_FAMILY:
         case["kc"] = _kc_cfg(draw, n, entry, corner)
     else:
